@@ -215,7 +215,8 @@ def ctor_rule(ctx, rule, ctor, adt):
 def point_text(ctx, rule, fv, who, template, nargs):
     # read the row off its string value, however it is assembled (format! + join, or a String built in a loop)
     rows_t = find_rows(fv, None, ctx)
-    if len(rows_t) == 1:
+    n_point_formats = len([1 for n_, ft_ in formats_in(fv) if fmt_template(ft_).startswith("(")])
+    if len(rows_t) == 1 and n_point_formats == 1:         # (a second place that renders points is judged below)
         _n, j, d = rows_t[0]
         clos = [s_ for s_ in subterms(j[2]) if s_[0] == "closure"]
         body = clos[0][1] if len(clos) == 1 else None
